@@ -156,7 +156,9 @@ func c14Run(rc *RunCtx, params any) {
 			}
 		}
 		for _, call := range sstore.Calls[callsS0:] {
-			if call.Op == "get" && len(call.Secret) > 0 && bytes.Equal([]byte(call.Key), offered) {
+			// a hit is a returned session (non-empty ID), whatever is left of its secret: a store that
+			// truncates the secret to nothing on both sides still hands out equal secrets
+			if call.Op == "get" && len(call.ID) > 0 && bytes.Equal([]byte(call.Key), offered) {
 				sSecret, sGot = call.Secret, true
 			}
 		}
